@@ -102,6 +102,7 @@ def variant_cfg(base: dict, seed: int, i: int, v: int):
     cfg["lazy"] = bool(v & 2) if v % 5 else True
     cfg["debug"] = (v % 6 == 5)
     cfg["order_seed"] = None if v % 3 == 0 else H(seed, i, v, "order") % (1 << 20)
+    cfg["merge_connects"] = bool(v & 4)       # one connect() call per attribute pair, or several pairs per call
     sched = dict(POLICY_CYCLE[(i + v) % len(POLICY_CYCLE)])
     sched["seed"] = H(seed, i, v, "sched") % (1 << 31)
     return cfg, sched
